@@ -42,7 +42,7 @@ def map_and_tasks(ctx, prefix, fi, table, ids_len, offsets_table, map_name, task
               f"{map_name} ({len(maps)} appends) and {tasks_name} ({len(tasks)} appends) are not appended once each "
               f"in the per-file loop: results would be scattered with another file's box ids", where=loc(fi, pl.loop))
     if not same_loop:
-        return pl
+        return None
     mask = f"MASK({table}=={pl.var})"
     ids = f"SEL(ARANGE({ids_len}),{mask})"
     alt_ids = f"FLATNONZERO({mask})"
